@@ -46,6 +46,8 @@ pub enum Defect {
     DuplicateGlobal,
     ArraySizeMismatch,
     TypeTooComplex,
+    /// located at the first token of a top-level line
+    BadReturnType,
     // generator stage
     UnknownIdentifier,
     UnknownFunction,
@@ -59,7 +61,7 @@ pub enum Defect {
     ReturnValueFromVoid,
 }
 
-pub const DEFECTS: [Defect; 24] = [
+pub const DEFECTS: [Defect; 25] = [
     Defect::ErrorDirective,
     Defect::UnknownDirective,
     Defect::UnterminatedString,
@@ -84,6 +86,7 @@ pub const DEFECTS: [Defect; 24] = [
     Defect::TooComplex,
     Defect::RuntimeDivision,
     Defect::ReturnValueFromVoid,
+    Defect::BadReturnType,
 ];
 
 impl Defect {
@@ -102,6 +105,7 @@ impl Defect {
                 | Defect::DuplicateGlobal
                 | Defect::ArraySizeMismatch
                 | Defect::TypeTooComplex
+                | Defect::BadReturnType
         )
     }
     pub fn stage(self) -> &'static str {
@@ -111,7 +115,7 @@ impl Defect {
                 "preprocessor"
             }
             DoubleOperator | DanglingOperator | StrayParen | EmptyInitialiser => "syntax",
-            DuplicateGlobal | ArraySizeMismatch | TypeTooComplex => "semantic",
+            DuplicateGlobal | ArraySizeMismatch | TypeTooComplex | BadReturnType => "semantic",
             _ => "codegen",
         }
     }
@@ -134,6 +138,7 @@ impl Defect {
             DuplicateGlobal => vec!["char uc1;".into()],
             ArraySizeMismatch => vec![format!("const char am{}[2] = {{1, 2, 3}};", u)],
             TypeTooComplex => vec![format!("short *tc{};", u)],
+            BadReturnType => vec![format!("int rt{}() {{ return 0; }}", u)],
             UnknownIdentifier => vec![format!("  nope{} = 1;", u)],
             UnknownFunction => vec![format!("  uc1 = nofn{}(1);", u)],
             TooManyArgs => vec!["  hf2(1, 2, 3);".into()],
@@ -166,6 +171,13 @@ pub struct Case {
     pub splice_defect: bool,
     pub crlf: bool,
     pub u: u32,
+    /// indentation of the offending line: 0 = column 0, 1 = two blanks, 2 = a tab, 3 = six blanks
+    #[serde(default = "one")]
+    pub indent: u8,
+}
+
+fn one() -> u8 {
+    1
 }
 
 impl Reducible for Case {
@@ -186,6 +198,9 @@ impl Reducible for Case {
         }
         if self.crlf {
             out.push(Case { crlf: false, ..self.clone() });
+        }
+        if self.indent != 1 {
+            out.push(Case { indent: 1, ..self.clone() });
         }
         if self.place != Place::Main {
             out.push(Case { place: Place::Main, ..self.clone() });
@@ -317,7 +332,19 @@ fn emit_shift(w: &mut Writer, s: &Shift, n: &mut u32, files: &mut Vec<(String, S
 }
 
 fn emit_defect(w: &mut Writer, case: &Case) -> Vec<u32> {
-    let lines = case.defect.text(case.u);
+    let mut lines = case.defect.text(case.u);
+    // the offending token may start in any column, column 0 included
+    let pad = match case.indent {
+        0 => "",
+        1 => "  ",
+        2 => "\t",
+        _ => "      ",
+    };
+    for l in lines.iter_mut() {
+        if !l.starts_with('#') {
+            *l = format!("{}{}", pad, l.trim_start());
+        }
+    }
     let mut out = vec![];
     // the offending line: the last one, except for `#if NOPE` whose #endif follows it
     let last = if case.defect == Defect::UndefinedInIf { 0 } else { lines.len() - 1 };
@@ -461,6 +488,7 @@ pub fn gen_case(g: &mut G, ex: &Excl) -> Case {
         splice_defect: g.chance(1, 5),
         crlf: g.chance(1, 8),
         u: 1 + g.below(50) as u32,
+        indent: g.weighted(&[4, 4, 1, 1]) as u8,
     }
 }
 
